@@ -86,6 +86,7 @@ Proof.
   destruct (find_store sch s); [|eexists; reflexivity].
   destruct (negb (nonempty i)); [eexists; reflexivity|].
   destruct (present sch st s i); [eexists; reflexivity|].
+  destruct (present sch st (root_of sch s) i); [eexists; reflexivity|].
   destruct (negb (key_ok i)); [eexists; reflexivity|].
   unfold fire_cu. destruct (is_child sch s).
   - unfold bind at 2. destruct (fire (oc_vetoes oc) evs (root_of sch s) Created i true) as [evs1|k]; [|eexists; reflexivity].
